@@ -265,6 +265,22 @@ GLOBAL_METHODS = {
 }
 
 
+def opaque_call(f, rs, c):
+    """a call that may perform part of a member function's protocol out of sight: an own member helper (const or not: buffers are mutable members), a free function
+    receiving an object by non-const reference or a closure, or the invocation of a local closure"""
+    if c.get("k") == "MCall" and (c.get("obj") is None or c["obj"].get("k") == "This") and is_transfer_cls(c.get("ccls")) and callee_name(c) not in ACCESSOR:
+        return True
+    if dfl.lambda_body_of(rs, c) is not None:
+        return True
+    if c.get("k") == "OpCall" and c.get("op") == "()" and "lambda" in (c.get("ccls") or "") + (c.get("callee") or ""):
+        return True
+    if c.get("k") in ("Call", "MCall") and any(a_.get("k") == "Lambda" for a_ in c.get("a", [])):
+        return True
+    if c.get("k") == "Call" and any(pt_ is not None and is_nonconst_ref(pt_) for a_, pn_, pt_ in dfl.call_args_with_params(c, f)):
+        return True
+    return False
+
+
 def check_global_transfer(ck, facts):
     classes = sorted({f.cls for f in facts.functions if strip_targs(f.cls) == "FEAT::Global::Transfer" and f.tk != "pattern" and f.name in GLOBAL_METHODS})
     if not classes:
@@ -297,12 +313,14 @@ def check_global_transfer(ck, facts):
                     and callee_name(c) in ("prol", "rest", "trunc", "prol_recv", "rest_send", "trunc_send", "prol_cancel")]
             # callees that may do part of the protocol (own member helpers, functions receiving a vector of this function mutably): a verdict
             # "X is missing" is definite only if there is none (otherwise: not modelled -> the run with helpers inlined decides)
-            opaque = [c for c in stmt_calls(f) if c not in locs and not c.get("noreturn") and c.get("callee") != "FEAT::assertion" and c.get("callee") not in dfl.MOVE_FNS and (
-                (c.get("k") == "MCall" and (c.get("obj") is None or c["obj"].get("k") == "This") and is_transfer_cls(c.get("ccls")) and callee_name(c) not in ACCESSOR) or
-                (c.get("k") == "Call" and any(pt_ is not None and is_nonconst_ref(pt_) for a_, pn_, pt_ in dfl.call_args_with_params(c, f))))]
+            opaque = [c for c in stmt_calls(f) if c not in locs and not c.get("noreturn") and c.get("callee") != "FEAT::assertion" and c.get("callee") not in dfl.MOVE_FNS
+                      and opaque_call(f, rs, c)]
             undecided = []
             if not locs:
-                eff = [c for c in stmt_calls(f) if not c.get("noreturn") and c.get("callee") != "FEAT::assertion" and not c.get("cconst")]
+                # anything that could do the work: a callee that is not a const accessor of some other object — own members of any constness (the class's buffers are
+                # mutable), callees receiving a vector / closure, invoked closures
+                eff = [c for c in stmt_calls(f) if not c.get("noreturn") and c.get("callee") != "FEAT::assertion" and c.get("callee") not in dfl.MOVE_FNS and (
+                    not c.get("cconst") or opaque_call(f, rs, c))]
                 if eff:
                     ck.incomplete("E4.global-delegate", "%s: no direct call of the local transfer operator; the work may be done by %s, which is not modelled" % (key, render(eff[0])[:60]))
                 else:
@@ -541,6 +559,10 @@ def function_events(fn):
             if n.get("callee") in dfl.MOVE_FNS:
                 continue
             lam = lambda_body_of(rs, n)
+            for a_ in n.get("a", []):
+                if a_.get("k") == "Lambda" and a_.get("body") is not None:      # a closure handed to a callee (callback)
+                    for p_ in lambda_touched_paths(rs, fn, a_["body"]):
+                        evs.append(Ev("mod", p_, n, definite=False))
             if lam is not None:
                 for p_ in lambda_touched_paths(rs, fn, lam):
                     evs.append(Ev("mod", p_, n, definite=False))      # the lambda body is not followed here (the inlined run does)
@@ -883,8 +905,9 @@ def check_weights(ck, fn, fkey, rule="E7.weights-inverted-once"):
                     continue
                 # anything else that may write the weights or the weighted object: a callee / lambda that is not modelled
                 lam = lambda_body_of(rs, n)
-                if lam is not None and st in ("raw", "synced", "inv"):
-                    for p_ in lambda_touched_paths(rs, fn, lam):
+                cb = [a_["body"] for a_ in n.get("a", []) if a_.get("k") == "Lambda" and a_.get("body") is not None]
+                if (lam is not None or cb) and st in ("raw", "synced", "inv"):
+                    for p_ in [q_ for b_ in ([lam] if lam is not None else []) + cb for q_ in lambda_touched_paths(rs, fn, b_)]:
                         if p_.related(W) or p_.related(M):
                             wdoubt.append((ln, "%s is modified inside the lambda called by %s, whose body is not followed" % (p_, render(n)[:40])))
                 if st in ("raw", "synced", "inv"):
@@ -2179,6 +2202,27 @@ def check_refine_points(ck, fn, g, fkey, calls):
             if x.get("k") == "Int":
                 return ("other", x.get("v"))
             return None
+        # closed form of the index as a polynomial over loop counters (running counters across the (child, point) nest, hoisted factors, named temporaries)
+        verdict = None
+        try:
+            km = g.__dict__.setdefault("_km", norm.KernelModel(fn))
+            child_loops = [L_ for d_, (L_, b_) in g.loopvar.items() if g.kind({"k": "Ref", "dk": "local", "d": d_, "n": "?"}) == ("child",)
+                           and any(node is L_ for node, sl in dfl.enclosing_stmt_chain(g.par, c))]
+            pv = km.val(idx, idx)
+            kv = km.val(kf, kf)
+            nbase = [x for x in fn.nodes() if x.get("k") == "MCall" and callee_name(x) == "get_num_points" and (x.get("obj") or {}).get("k") == "Ref" and x["obj"].get("d") == base]
+            if len(child_loops) == 1 and km.loops.get(id(child_loops[0])) is not None and nbase and pv[0] is None and kv[0] is None and not pv[1].unknown() and not kv[1].unknown():
+                ci = km.loops[id(child_loops[0])]
+                cpoly = ci["base"] + norm.Poly.atom(ci["counter"])          # value of the child variable
+                nv = km.val(nbase[0], nbase[0])
+                if not nv[1].unknown() and not cpoly.unknown():
+                    verdict = (pv[1] == cpoly * nv[1] + kv[1])
+        except Exception:
+            verdict = None
+        if verdict is not None:
+            detail += "; the fine evaluation uses point %s of the base rule; index as closed form: %s, expected child * base.get_num_points() + %s" % (render(kf), pv[1].key(), render(kf))
+            ck.ob("E2.refined-point", key, verdict, detail, fn.file, c.get("l"))
+            continue
         poly = []
         understood = True
         for t in flat(idx, "+"):
